@@ -462,6 +462,7 @@ impl Instance {
     }
 
     /// Returns `(due_millis, key)` of all pending tasks.
+    #[allow(clippy::doc_lazy_continuation)]
     pub fn pending_tasks(&self) -> Vec<(u128, String)> {
         hooks::with_faults_suspended(|| {
             let Ok(store) = self.rt().storage().open(TASK_QUEUE_NS) else {
@@ -521,6 +522,32 @@ pub fn make_run_dir(seed: u64, tag: &str) -> PathBuf {
     let _ = std::fs::remove_dir_all(&base);
     std::fs::create_dir_all(&base).expect("create run dir");
     base
+}
+
+/// One step of the real scheduler loop on the calling thread: claims and
+/// runs at most one due task. Returns whether a task was claimed.
+pub fn scheduler_step(rt: &KrillRuntime) -> bool {
+    let (tx, rx) = mpsc::channel::<()>();
+    let before = {
+        let mut st = hooks::state();
+        st.step_tx = Some(tx.clone());
+        st.tasks_claimed
+    };
+    let res = std::panic::catch_unwind(std::panic::AssertUnwindSafe(|| {
+        krill::server::scheduler::verif_run(
+            SlowKrillRuntime::new(rt.clone()), rx
+        );
+    }));
+    let after = {
+        let mut st = hooks::state();
+        st.step_tx = None;
+        st.tasks_claimed
+    };
+    drop(tx);
+    if let Err(payload) = res {
+        std::panic::resume_unwind(payload);
+    }
+    after > before
 }
 
 pub fn remove_run_dir(dir: &Path) {
